@@ -349,7 +349,7 @@ static void inv_case(const vh_args_t *a, int op) {
   static const int NS[] = {1, 2, 3, 17, 63, 64, 65, 100, 127, 128, 129, 192, 193, 200, 256, 257};
   int n = NS[vh_randint(0, 15)];
   if (vh_randint(0, 3) == 0) n = vh_randint(1, a->tier ? 400 : 200);
-  if (a->tier && vh_randint(0, 8) == 0) n = vh_pick((int[]){362, 363, 364, 384, 400}, 5); /* trtri recursion threshold (small cache) */
+  if (vh_randint(0, a->tier ? 8 : 12) == 0) n = vh_pick((int[]){362, 363, 364, 384, 400}, 5); /* trtri recursion threshold (small cache) */
   vh_ev_t e;
   mzd_t *R = NULL;
   int k = vh_randint(0, 8);
